@@ -194,6 +194,12 @@ def gen_red(rng, tier):
             for n in (12, 60):
                 for _ in range(2):
                     yield {"fam": "red", "red": red, "xt": xt, "x": cfill(rng, xt, [rng.random() < 0.3 for _ in range(n)])}
+            # the same contents reached in other ways: by in-place writes after earlier reductions, and as a row of a table
+            for via in ("warm", "warmcol", "rowiter", "rowindex"):
+                for px in all_patterns(3):
+                    yield {"fam": "red", "red": red, "xt": xt, "x": cfill(rng, xt, px), "via": via, "wform": rng.randrange(3)}
+                yield {"fam": "red", "red": red, "xt": xt, "x": cfill(rng, xt, [rng.random() < 0.3 for _ in range(6)]), "via": via,
+                       "wform": rng.randrange(3)}
 
 
 def gen_na(rng, tier):
@@ -418,13 +424,58 @@ def red_wire(spec):
     red = spec["red"]
     nn = [x for x in xs if x is not None]
     code, want = oracle_code(I, red, nn)
-    if red == "stdev":
-        call = lambda: v.stdev()
-    elif red == "stdev_pop":
-        call = lambda: v.stdev(population=True)
-    else:
-        call = lambda: getattr(v, red)()
-    r, err = G.run(call)
+
+    def reduce_(v, red=red):
+        if red == "stdev":
+            return v.stdev()
+        if red == "stdev_pop":
+            return v.stdev(population=True)
+        return getattr(v, red)()
+    via = spec.get("via", "direct")
+    pool_ = CPOOLS[spec["xt"]] if spec["xt"] in CPOOLS else None
+    if via != "direct" and (not xs or pool_ is None):
+        via = "direct"
+    if via in ("warm", "warmcol"):
+        # the same contents reached by in-place writes after every reduction has been called on None-free contents of the
+        # same kind: nothing remembered by the earlier calls may survive the writes
+        from serif import Table
+        full = [x if x is not None else pool_[i % len(pool_)] for i, x in enumerate(xs)]
+        if via == "warm":
+            v = cvector(spec["xt"], full, False)
+            holder = None
+        else:
+            holder = Table({"c": full, "d": list(range(len(full)))})
+            v = holder["c"]
+        for r0 in ("sum", "min", "max", "mean", "any", "all", "stdev"):
+            G.run(lambda: reduce_(v, r0))
+        form = spec.get("wform", 0) % 3
+        for i, x in enumerate(xs):
+            if x is None:
+                if holder is not None and form == 2:
+                    holder[i, "c"] = None
+                elif form == 1:
+                    v[i:i + 1] = [None]
+                else:
+                    v[i] = None
+    elif via in ("rowiter", "rowindex"):
+        # the same contents as a row of a table: the i-th row view (iteration hands out one reused Row object; every
+        # earlier row - without None - is reduced first)
+        from serif import Table
+        full = [x if x is not None else pool_[i % len(pool_)] for i, x in enumerate(xs)]
+        holder = Table({"c%d" % j: [full[j], xs[j], full[j]] for j in range(len(xs))})
+        if via == "rowindex":
+            G.run(lambda: reduce_(holder[0]))
+            v = holder[1]
+        else:
+            v = None
+            for i, row in enumerate(holder):
+                if i == 0:
+                    for r0 in ("sum", "min", "max", "mean", "any", "all", "stdev"):
+                        G.run(lambda: reduce_(row, r0))
+                if i == 1:
+                    v = row
+                    break
+    r, err = G.run(lambda: reduce_(v))
     n, _ = G.run(lambda: len(v))
     impl = {"err": err, "len": n} if err else {"ok": obs_scalar(I, r, want, code), "len": n}
     return {"fam": "red", "case": {"red": red, "xs": [I.uid(x) for x in xs], "key": [I.uid(x) for x in nn], "res": code},
